@@ -3,6 +3,11 @@ C12 — negation witnesses: concrete inputs on which the *full-strength* clause 
 false of the model (and, replayed by the harness on every run, of the implementation).  Each is
 listed in known_findings.txt under the id given in its docstring.  All are closed computations
 (`decide +kernel`: no axioms).
+
+Regressions: the theorems named `…_fixed` are the former witnesses of the twelve findings repaired in
+/repo (`fixed:` lines of known_findings.txt with the commit); they now state the *correct* behaviour on
+the same input, so a model (and, through the correspondence and the corpus replays, a code) that goes
+back to the defect no longer builds / is reported.
 -/
 import WpModel.Model.Flex
 import WpModel.Model.Grid
@@ -39,17 +44,18 @@ def rects (r : Except PyErr Result) : Option (List (Rat × Rat × Rat × Rat)) :
   | .ok r => some (r.rects.map fun q => (q.x, q.y, q.w, q.h))
   | .error _ => none
 
-/-- id=flex-clamp-no-redistribute (F5).  `flex:1 1 0; max-width:10px` + `flex:1 1 0` in 100px:
-the second item could take the 90px that are left, it gets 50 (`flex_fill` without the
-"not clamped" hypothesis is false). -/
-theorem clamp_no_redistribute :
+/-- fixed id=flex-clamp-no-redistribute (F5, 9739d52).  `flex:1 1 0; max-width:10px` + `flex:1 1 0` in
+100px: the first item is frozen at its maximum by 9.7.5.d–e and the second pass gives the 90px that are
+left to the second one (was 10 + 50). -/
+theorem clamp_redistributes_fixed :
     rects (layout rowC [{ flex110 with sMaxW := some 10 }, { flex110 with id := 1 }]) =
-      some [(0, 0, 10, 0), (10, 0, 50, 0)] := by decide +kernel
+      some [(0, 0, 10, 0), (10, 0, 90, 0)] := by decide +kernel
 
-/-- id=flex-padding-not-counted.  Two `flex:1 1 0; padding:0 10px` items in 100px are 70px wide each. -/
-theorem padding_not_counted :
+/-- fixed id=flex-padding-not-counted (b901ca9).  Two `flex:1 1 0; padding:0 10px` items in 100px are 50px
+wide each, paddings included (was 70 + 70). -/
+theorem padding_counted_fixed :
     rects (layout rowC [{ flex110 with pl := 10, pr := 10 }, { flex110 with id := 1, pl := 10, pr := 10 }]) =
-      some [(0, 0, 70, 0), (70, 0, 70, 0)] := by decide +kernel
+      some [(0, 0, 50, 0), (50, 0, 50, 0)] := by decide +kernel
 
 /-- id=flex-vertical-auto-margins-zeroed.  `margin-top:auto` on a 10px item of a 100px column
 container: the item stays at y = 0 (90 expected). -/
@@ -57,35 +63,37 @@ theorem vertical_auto_margins_zeroed :
     rects (layout colC [{ item with sHeight := some 10, mt := none }]) = some [(0, 0, 100, 10)] := by
   decide +kernel
 
-/-- id=flex-negative-auto-margin.  `flex:none; width:120px; margin-left:auto` in 100px: the auto
-margin becomes −20px (0 expected: auto margins only absorb positive free space). -/
-theorem negative_auto_margin :
+/-- fixed id=flex-negative-auto-margin (b27af5f).  `flex:none; width:120px; margin-left:auto` in 100px:
+the auto margin is 0 and the item starts at x = 0 (was −20: auto margins only absorb positive free space). -/
+theorem negative_auto_margin_fixed :
     rects (layout rowC [{ item with shrink := 0, sWidth := some 120, sHeight := some 10, ml := none }]) =
-      some [(-20, 0, 120, 10)] := by decide +kernel
+      some [(0, 0, 120, 10)] := by decide +kernel
 
-/-- id=flex-cross-auto-margin-not-positioned.  Wrapping column container, second column holds an
-item with `margin-left:auto`: it is laid out at x = 0, on top of the first column (x ≥ 30 expected). -/
-theorem cross_auto_margin_not_positioned :
+/-- fixed id=flex-cross-auto-margin-not-positioned (4ac1c09).  Wrapping column container, second column
+holds an item with `margin-left:auto`: it is laid out in its own column, at x = 30 (was x = 0, on top of the
+first column). -/
+theorem cross_auto_margin_positioned_fixed :
     rects (layout { colC with wrap := .wrap, height := some 50, alignContent := .flexStart }
       [{ item with sHeight := some 40, sWidth := some 30 },
        { item with id := 1, sHeight := some 40, sWidth := some 20, ml := none }]) =
-      some [(0, 0, 30, 40), (0, 0, 20, 40)] := by decide +kernel
+      some [(0, 0, 30, 40), (30, 0, 20, 40)] := by decide +kernel
 
-/-- id=flex-align-content-last-item.  Two lines, `align-content:center`, the second line holds a
-`flex-start` item (30px high) and a `flex-end` item (10px): both get y = 60, the position of the
-last one (the flex-start item belongs at y = 40). -/
-theorem align_content_last_item :
+/-- fixed id=flex-align-content-last-item (10a14ee).  Two lines, `align-content:center`, the second line
+holds a `flex-start` item (30px high) and a `flex-end` item (10px): the flex-start item is at the top of
+its line, y = 40, the flex-end one at y = 60 (both were at y = 60). -/
+theorem align_content_own_offset_fixed :
     rects (layout { rowC with wrap := .wrap, height := some 100, alignContent := .center }
       [{ item with sWidth := some 60, sHeight := some 10 },
        { item with id := 1, sWidth := some 60, sHeight := some 30, alignSelf := .flexStart },
        { item with id := 2, sWidth := some 30, sHeight := some 10, alignSelf := .flexEnd }]) =
-      some [(0, 30, 60, 10), (0, 60, 60, 30), (60, 60, 30, 10)] := by decide +kernel
+      some [(0, 30, 60, 10), (0, 40, 60, 30), (60, 60, 30, 10)] := by decide +kernel
 
-/-- id=flex-column-clamps-by-width.  Column container of 100px: `flex:1 1 0; max-width:10px` has
-its *height* limited to 10px, and the second item gets 50 (not 90). -/
-theorem column_clamps_by_width :
+/-- fixed id=flex-column-clamps-by-width (9739d52: the clamp of 9.7.5.d uses the main-axis min / max).
+Column container of 100px: `flex:1 1 0; max-width:10px` keeps its share of the *height* (50 + 50; was 10 + 50),
+the max-width only limits its width. -/
+theorem column_clamps_by_height_fixed :
     rects (layout colC [{ flex110 with sMaxW := some 10 }, { flex110 with id := 1 }]) =
-      some [(0, 0, 10, 10), (0, 10, 100, 50)] := by decide +kernel
+      some [(0, 0, 10, 50), (0, 50, 100, 50)] := by decide +kernel
 
 /-- id=flex-fractional-factor-sum.  `flex:0.5 1 0` alone in 80px takes 80px (css-flexbox 9.7.4.b:
 40px): `int(log10 40) = int(log10 80)`, so the scaled free space is not used. -/
@@ -100,6 +108,19 @@ theorem content_base_clamped :
     rects (layout rowC [{ item with grow := 1, sMinW := some 20, sHeight := some 5 },
                         { item with id := 1, grow := 1, sWidth := some 20, sHeight := some 5 }]) =
       some [(0, 0, 50, 5), (50, 0, 50, 5)] := by decide +kernel
+
+/-- id=flex-negative-factor-accepted.  `flex:1 1 0` next to `flex-grow:-1; flex-basis:0` in 100px: the validator
+lets the (invalid) negative factor through, the factors sum to 0 and nothing is distributed: the first item is 0px
+wide (100px expected: a negative `flex-grow` is invalid, the declaration is ignored). -/
+theorem negative_factor_accepted :
+    rects (layout rowC [{ flex110 with sHeight := some 5 },
+                        { item with id := 1, grow := -1, basis := .px 0, sHeight := some 5 }]) =
+      some [(0, 0, 0, 5), (0, 0, 0, 5)] := by decide +kernel
+
+/-- with the factor the declaration falls back to (0) the first item takes the whole width -/
+example : rects (layout rowC [{ flex110 with sHeight := some 5 },
+                              { item with id := 1, grow := 0, basis := .px 0, sHeight := some 5 }]) =
+    some [(0, 0, 100, 5), (100, 0, 0, 5)] := by decide +kernel
 
 end Flex
 
@@ -141,23 +162,24 @@ def gerr (r : Except GErr Result) : Option GErr :=
   | .ok _ => none
   | .error e => some e
 
-/-- id=grid-justify-ignores-gap.  Two 20px columns, `column-gap:10px; justify-content:center` in
-100px: the columns start at 30 and 60 (25 and 55 expected: the free width is computed without the gap). -/
-theorem justify_ignores_gap :
+/-- fixed id=grid-justify-ignores-gap (0e77b99).  Two 20px columns, `column-gap:10px;
+justify-content:center` in 100px: the columns start at 25 and 55 (were 30 and 60). -/
+theorem justify_counts_gap_fixed :
     grects (layout { gridC with templateCols := pxCols [20, 20], colGap := 10, justifyContent := .center }
-      [gitem, { gitem with id := 1 }]) = some [(30, 0, 20, 5), (60, 0, 20, 5)] := by decide +kernel
+      [gitem, { gitem with id := 1 }]) = some [(25, 0, 20, 5), (55, 0, 20, 5)] := by decide +kernel
 
-/-- id=grid-locked-skips-first-track.  `grid-row: 1` alone: the item is put in the *second* column. -/
-theorem locked_skips_first_track :
+/-- fixed id=grid-locked-skips-first-track (e5d53d3).  `grid-row: 1` alone: the item is put in the first
+column (was the second). -/
+theorem locked_first_track_fixed :
     gareas (layout { gridC with templateCols := pxCols [20, 30] } [{ gitem with rowStart := lineNo 1 }]) =
-      some [(0, (1, 0, 1, 1))] := by decide +kernel
+      some [(0, (0, 0, 1, 1))] := by decide +kernel
 
-/-- id=grid-span-first-axis-crash.  `grid-row: span 2; grid-column: 2`: `first_i` is read before
-assignment. -/
-theorem span_first_axis_crash :
-    gerr (layout { gridC with templateCols := pxCols [20, 30] }
+/-- fixed id=grid-span-first-axis-crash (cd18f00).  `grid-row: span 2; grid-column: 2`: the item spans the
+rows 0 and 1 of column 1 (was `UnboundLocalError`). -/
+theorem span_first_axis_fixed :
+    gareas (layout { gridC with templateCols := pxCols [20, 30] }
       [{ gitem with rowStart := .mk true (some 2) none, colStart := lineNo 2 }]) =
-      some (.unboundLocal "grid_layout.first_i") := by decide +kernel
+      some [(0, (1, 0, 1, 2))] := by decide +kernel
 
 /-- id=grid-named-span-hang.  `grid-row: 1; grid-column: span foo` with no line called `foo`: the
 `count()` loop of `_get_second_placement` never finds a placement (the bound of the model is hit). -/
@@ -172,12 +194,13 @@ theorem negative_line_numbers :
     (getPlacement (lineNo (-2)) (lineNo (-1)) [[], [], [], []]).toOption = some (some (-3, 1)) := by
   decide +kernel
 
-/-- id=grid-column-flow-implicit-start.  `grid-auto-flow: column`, one item with `grid-row-end: 1`
-(a row before the explicit grid) and one automatic item: the column sizing indexes its tracks with
-the implicit start of the *rows* and raises `IndexError`. -/
-theorem column_flow_implicit_start :
-    gerr (layout { gridC with flowColumn := true } [{ gitem with rowEnd := lineNo 1 }, { gitem with id := 1 }]) =
-      some (.indexError "tracks_children") := by decide +kernel
+/-- fixed id=grid-column-flow-implicit-start (34cd729).  `grid-auto-flow: column`, one item with
+`grid-row-end: 1` (a row before the explicit grid) and one automatic item: the columns are sized from their
+own implicit start, no `IndexError` any more; both items are placed in column 0, rows −1 and 0. -/
+theorem column_flow_implicit_start_fixed :
+    gerr (layout { gridC with flowColumn := true } [{ gitem with rowEnd := lineNo 1 }, { gitem with id := 1 }]) = none ∧
+    gareas (layout { gridC with flowColumn := true } [{ gitem with rowEnd := lineNo 1 }, { gitem with id := 1 }]) =
+      some [(0, (0, -1, 1, 1)), (1, (0, 0, 1, 1))] := by decide +kernel
 
 /-- id=grid-leading-implicit-tracks-misindexed.  `grid-column-end: 1` (a column before the explicit
 grid) + one automatic item in 100px: the first item lands at x = 50 with width 0, the second at
@@ -193,17 +216,41 @@ theorem maximize_no_redistribution :
     (resolveTracks [(.px 0, .px 50), (.px 5, .px 5)] (some 100) [] 0 true 0 false).toOption.map
       (List.map (·.base)) = some [95/2, 5] := by decide +kernel
 
-/-- id=grid-named-line-nth-ignored.  `grid-column-start: 2 foo` on lines `[foo] [foo] [foo] []`:
-the second line called `foo` is line 1 (0-based); `_get_line` stops at the first one and answers 0. -/
-theorem named_line_nth_ignored :
+/-- fixed id=grid-named-line-nth-ignored (c8a4ac7).  `grid-column-start: 2 foo` on lines
+`[foo] [foo] [foo] []`: the second line called `foo`, line 1 (0-based) (was the first one, 0). The general
+statement is `C12.getLine_nth_named`. -/
+theorem named_line_nth_fixed :
     (getLine false (some 2) (some "foo") [["foo"], ["foo"], ["foo"], []] "start").toOption.map (·.coord) =
-      some (some 0) := by decide +kernel
+      some (some 1) := by decide +kernel
 
-/-- id=grid-justify-self-outer-width.  `justify-self: start; width: 20px; padding: 0 5px` in a 100px
-area: the content width is set to the *outer* max-content width (30), the border box is 40px wide (30 expected). -/
-theorem justify_self_outer_width :
+/-- fixed id=grid-justify-self-outer-width (ca85a65).  `justify-self: start; width: 20px; padding: 0 5px` in
+a 100px area: the border box is 30px wide (was 40: the outer max-content width was used as content width). -/
+theorem justify_self_content_width_fixed :
     grects (layout gridC [{ gitem with sWidth := some 20, pl := 5, pr := 5, justifySelf := .other }]) =
-      some [(0, 0, 40, 5)] := by decide +kernel
+      some [(0, 0, 30, 5)] := by decide +kernel
+
+/-- id=grid-named-span-from-last-line.  `grid-column: 3 / span 2 foo` on two columns (three lines, none called
+`foo`): the two implicit lines after the grid are assumed to be called `foo`, so the item spans 2 tracks
+`(2, 2)`; `_get_placement` answers `(2, 4)`: the loop over `lines[coord+1:]` is empty, `size` keeps its initial
+value 2 and `size += span_number` doubles it. -/
+theorem named_span_from_last_line :
+    (getPlacement (lineNo 3) (.mk true (some 2) (some "foo")) [[], [], []]).toOption = some (some (2, 4)) := by
+  decide +kernel
+
+/-- the same span from the line before is right: `2 / span 2 foo` ends on the second implicit line, `(1, 3)`. -/
+example : (getPlacement (lineNo 2) (.mk true (some 2) (some "foo")) [[], [], []]).toOption = some (some (1, 3)) := by
+  decide +kernel
+
+/-- id=grid-backward-named-span-count.  `grid-column: span foo / 4` on lines `[foo] [foo] [foo] []`: the `foo`
+line before line 4 is line 3, i.e. `(2, 1)`; `_get_placement` counts with the integer of the *end* line (4),
+runs out of `foo` lines and answers `(-1, 4)`. -/
+theorem backward_named_span_count :
+    (getPlacement (.mk true none (some "foo")) (lineNo 4) [["foo"], ["foo"], ["foo"], []]).toOption =
+      some (some (-1, 4)) := by decide +kernel
+
+/-- with an end line given by name only the count is the span's: `span foo / bar` is right, `(1, 2)`. -/
+example : (getPlacement (.mk true none (some "foo")) (.mk false none (some "bar"))
+    [["foo"], ["foo"], [], ["bar", "foo"]]).toOption = some (some (1, 2)) := by decide +kernel
 
 end Grid
 
